@@ -37,8 +37,8 @@ CLAIMED['C01'] = dict(
    technique="Coq proof, end to end (graph invariants + writer/reader simulation: valid_smiles_under T (decoder s) = true below 100 ring pairs) + refutation witness at the bound + exact correspondence of the decoder model + extracted independent-reader oracle",
    design_ref="5/C01")
 CLAIMED['C02'] = dict(
-   text="Proof (partial, props/C02.v), for all strings and tables: (1) what the independent reader reads from the decoder's output IS the decoder's graph - atoms with element / isotope / chirality / H / charge in written order, bonded pairs with their orders and cis/trans marks, neighbour order = parent then the entries of the row (C02_output_denotes_graph_partial; either flag; hypotheses on the input alone: symbols within the int() limit, fewer than 100 ring symbols); (2) every rejection is a DecoderError; strings whose symbols are all in the grammar and whose brackets are closed are accepted; a reached symbol outside the grammar is rejected; (3) every rule's arithmetic (atom, branch, ring; regenerated from source) and every symbol table (regenerated) equals the documented one; index code = documented base-16 code. Not a theorem: that this graph equals the documented derivation (C02_full_statement): checked per input by the extracted documented-grammar evaluator (spec/DocGrammar.v) against the molecule the independent reader reads from the implementation's output - bounded-exhaustive over a rule-covering symbol set and sampled.",
-   technique="Coq proof (output denotes the decoder's graph; rejection clauses; rule/table equalities) + extracted documented-grammar evaluator and independent reader as oracle (bounded-exhaustive + sampled) + exact correspondence",
+   text="Kernel-checked AS STATED, for all tables with '?' and all well-formed strings whose symbols are within the int() digit limit and which have fewer than 100 ring symbols (props/C02.v: C02_decoder_refines_grammar): whenever the decoder model returns a string, the documented derivation (spec/DocGrammar.v: grammar_eval, written from docs/source/derivation.rst independently of decoder.py - token array with a position pointer, neighbour slots, free valence recomputed from the slots) assigns a molecule g to the same symbols, and the molecule the independent SMILES reader reads from the decoder's output is g with its atoms listed in the writer's emission order (a permutation; neighbour order, bond orders, cis/trans marks, ring flags carried over). Route, all by induction over unbounded inputs: the decoder's atom symbols are the documented grammar's with the same reading and alpha (DocAtoms); the derivation pass simulates the documented pointer machine dd step for step, budgets and index symbols included (DocDerive); the ring-forming pass simulates the documented second pass form_one, insertion positions and raised orders included (DocRings); the read-back of the printed string (WriterSim/WriterFinal, shared with C01) closes the loop (DocFinal). Also: every rejection is a DecoderError (both flags); strings whose symbols are all in the grammar are accepted; every rule's arithmetic and every symbol table (regenerated from source) equals the documented one; index code = documented base-16 code. Not a theorem: the converse for rejected strings (that the documented derivation also rejects), and the sharp bound (100 ring symbols: known finding of C01). The model is tied to the code by exact-output correspondence, and the extracted grammar_eval still judges every implementation output (bounded-exhaustive over a rule-covering symbol set, and sampled).",
+   technique="Coq proof: refinement of the documented derivation (atom-symbol grammar, pointer-machine simulation of the derivation pass, simulation of the ring pass, reader/writer simulation) + extracted documented-grammar evaluator and independent reader as oracle (bounded-exhaustive + sampled) + exact correspondence",
    design_ref="5/C02")
 CLAIMED['C08'] = dict(
    text="Kernel-checked for ALL strings and ALL accepted tables (props/C08.v, proofs/DecoderInv.v): the decoder model (both values of compatible - the legacy front end of compatibility.py is inside the theorem, proofs/CompatTotal.v - and attribute on or off) returns a SMILES or raises DecoderError - no other exception class, no partial operation reached, fuel never exhausted - and a decode leaves the table in force untouched (history model). The statement excludes what the model does not exhibit and the implementation does: int() refusing more than 4300 digits and the interpreter's recursion limit (both known findings, classifiers in the check). Outcome classes of implementation and model are compared on malformed / arbitrary / long / nested inputs with all flag combinations.",
